@@ -3,10 +3,10 @@ package main
 import (
 	"fmt"
 	"go/constant"
-	"sort"
-	"strings"
 	"go/token"
 	"go/types"
+	"sort"
+	"strings"
 
 	"golang.org/x/tools/go/ssa"
 )
@@ -312,6 +312,64 @@ func (e *Engine) structural(spec string) (bool, string) {
 			return false, strings.Join(dedupe(bad), "; ")
 		}
 		return true, fmt.Sprintf("%d entries each, mutually inverse", len(a))
+	case "types-frozen":
+		// types-frozen|<pkg name>|<pkg.T,...>: no function of the package stores into a field of a value of one of
+		// these struct types through a pointer, or into an element of a slice of them (values are only ever
+		// built whole: composite literals stored into fresh allocations are constructors)
+		if len(parts) != 3 {
+			return false, "bad spec"
+		}
+		want := map[string]bool{}
+		for _, c := range strings.Split(parts[2], ",") {
+			want[strings.TrimSpace(c)] = true
+		}
+		tname := func(t types.Type) string {
+			if n, ok := types.Unalias(t).(*types.Named); ok && n.Obj().Pkg() != nil {
+				return n.Obj().Pkg().Name() + "." + n.Obj().Name()
+			}
+			return ""
+		}
+		var bad []string
+		scanned := 0
+		for key, fn := range e.funcs {
+			pk := fnPackage(fn)
+			if pk == nil || pkgKey(pk) != parts[1] || fn.Blocks == nil {
+				continue
+			}
+			for _, b := range fn.Blocks {
+				for _, ins := range b.Instrs {
+					st, ok := ins.(*ssa.Store)
+					if !ok {
+						continue
+					}
+					scanned++
+					switch a := st.Addr.(type) {
+					case *ssa.FieldAddr:
+						if want[tname(deref(a.X.Type()))] {
+							if _, fresh := a.X.(*ssa.Alloc); !fresh {
+								bad = append(bad, key+" writes a field of "+tname(deref(a.X.Type())))
+							}
+						}
+					case *ssa.IndexAddr:
+						if sl, ok := a.X.Type().Underlying().(*types.Slice); ok && want[tname(sl.Elem())] {
+							if _, fresh := a.X.(*ssa.MakeSlice); !fresh {
+								if _, isSlice := a.X.(*ssa.Slice); !isSlice {
+									bad = append(bad, key+" writes an element of a []"+tname(sl.Elem()))
+								}
+							}
+						}
+					}
+				}
+			}
+		}
+		if len(bad) > 0 {
+			sort.Strings(bad)
+			return false, strings.Join(dedupe(bad), "; ")
+		}
+		if scanned == 0 {
+			return false, "no stores scanned (vacuous)"
+		}
+		return true, fmt.Sprintf("%d stores scanned, none into the listed types", scanned)
 	case "global-regex":
 		// global-regex|<pkg>|<global>|<pattern>: the global is initialised once, by regexp.MustCompile of exactly this literal
 		if len(parts) < 4 {
